@@ -1029,3 +1029,68 @@ func c04ChooseThroughQualifiedLookup(ctx *core.Ctx, r *core.Report) {
 	r.Ob("choose-through-qualified-lookup", "nodeutil.JsonContainerReader/lookups-through-fqkGet", ctx.Pos(jr.Pos()), uses >= 3,
 		fmt.Sprintf("%d callbacks of the JSON reader use fqkGet (Choose, Child and Field are expected to)", uses))
 }
+
+// c20FieldWritesReplace: the reflection field handlers write a value by replacing
+// the Go field (reflect.Value.Set). Copying into the array the field already
+// holds (SetLen + reflect.Copy) writes through whatever else shares that array —
+// a new entry's leaf-list default shares it with the schema's own default
+// values, so an edit of one data tree rewrites the module (and every tree created
+// after it).
+func c20FieldWritesReplace(ctx *core.Ctx, r *core.Report) {
+	n := 0
+	for _, f := range scopeFuncs(ctx, "nodeutil", "node_struct.go", "node_map.go", "node_slice.go", "node.go") {
+		for _, c := range core.CallSites(f) {
+			cal := core.StaticCallee(c)
+			if cal == nil {
+				continue
+			}
+			switch core.FnName(cal) {
+			case "reflect.Copy", "reflect.Value.SetLen":
+				n++
+				r.Ob("field-writes-replace", core.FnName(f)+"/"+cal.Name(), ctx.Pos(c.Pos()), false,
+					"a field handler writes into the array a Go field already holds instead of replacing the field: the array may be shared — the leaf-list default of a freshly created entry is the schema's own default slice — so editing one tree changes the compiled module and every tree created afterwards")
+			}
+		}
+	}
+	r.Ob("field-writes-replace", "nodeutil(field handlers)/scanned", "nodeutil/node_struct.go", ctx.Method("nodeutil", "reflectByField", "set") != nil, "anchor nodeutil.reflectByField.set not found")
+	r.Count("instances:field-writes-replace(in-place writes found)", n)
+}
+
+// c19ListFormAgreesWithScalar: the list form of a value constructor converts each
+// element with the scalar constructor of the same kind (toIdentRefList → toIdentRef,
+// which strips and checks the module prefix the writers emit): a list form that
+// re-implements the lookup reads `types:udp` in a leaf but not in a leaf-list.
+func c19ListFormAgreesWithScalar(ctx *core.Ctx, r *core.Report) {
+	pairs := [][2]string{{"toIdentRefList", "toIdentRef"}, {"toEnumList", "toEnum"}}
+	for _, p := range pairs {
+		lf, sf := ctx.Fn("node", p[0]), ctx.Fn("node", p[1])
+		if lf == nil || sf == nil {
+			r.Fatalf("anchors node.%s / node.%s not found", p[0], p[1])
+			continue
+		}
+		// every loop of the list form that builds elements calls the scalar form
+		loops, withScalar := 0, 0
+		for _, g := range withClosures(lf) {
+			for _, h := range g.Blocks {
+				body, hdr := innerLoopOf(h)
+				if hdr != h || body == nil {
+					continue
+				}
+				loops++
+				found := false
+				for _, c := range core.CallSites(g) {
+					if body[c.Block()] {
+						if cal := core.StaticCallee(c); cal != nil && (cal == sf || cal.Origin() == sf || strings.HasPrefix(cal.Name(), p[1])) {
+							found = true
+						}
+					}
+				}
+				if found {
+					withScalar++
+				}
+			}
+		}
+		r.Ob("list-form-agrees-with-scalar", "node."+p[0], ctx.Pos(lf.Pos()), loops > 0 && loops == withScalar,
+			fmt.Sprintf("%d of %d element loops of %s convert through %s: the others re-implement the conversion, so a value the scalar form accepts (an identity written with its module prefix) is refused or read differently in a list", withScalar, loops, p[0], p[1]))
+	}
+}
